@@ -35,8 +35,14 @@ func vpNewFSWorld() *vpFSWorld {
 		w.fs = vpNewFS()
 	}
 	w.store = &FileSystemDataStore{rootDir: vpFSWorldRoot}
+	// file names are drawn in ascending or descending order, so that an interrupted write's
+	// leftovers can sort before or after the files committed earlier
+	descending := nondetBool()
 	w.store.drawFileName = func() string {
 		w.names++
+		if descending {
+			return "f" + string(rune('9'-w.names))
+		}
 		return "f" + string(rune('0'+w.names))
 	}
 	w.b = &BloomSearchEngine{
